@@ -431,6 +431,11 @@ pub fn check_c06(q: &ConeQ, part: &mut Part) -> Option<Viol> {
 /// Deep tier, C05: witnesses are points of the cone; the candidate cell is the subject's own
 /// hash of the witness (validated by C01); it must be covered.
 pub fn check_c05_deep(q: &ConeQ, listed_kf1: bool, part: &mut Part) -> Verdict {
+  check_c05_deep_nb(q, listed_kf1, 0, part)
+}
+
+/// `min_bearings`: lower bound on the number of bearings of the rim witnesses.
+pub fn check_c05_deep_nb(q: &ConeQ, listed_kf1: bool, min_bearings: usize, part: &mut Part) -> Verdict {
   let out = match q.run() {
     Ok(o) => o,
     Err(m) => return Verdict::Bad(Viol { api: q.api().into(), kind: "panic".into(), case: q.to_json(), expected: "a coverage".into(), actual: format!("panic: {}", m) }),
@@ -450,10 +455,13 @@ pub fn check_c05_deep(q: &ConeQ, listed_kf1: bool, part: &mut Part) -> Verdict {
   // cone many cells across: more bearings, and points half a cell / two cells inside the rim
   let cell = PI / 3.0f64.sqrt() / (1u64 << q.depth) as f64;
   let large = q.r > 40.0 * cell;
-  let nb = if large { 96 } else { 16 };
+  let nb = (if large { 96 } else { 16 }).max(min_bearings);
   for k in 0..nb {
     let bearing = k as f64 * (TWO_PI / nb as f64) + 0.05;
-    for f in [0.25, 0.5, 0.75, 1.0 - 1e-6] {
+    // (the last two factors put a witness just inside the margin below which a point counts as
+    // robustly inside the cone: 1e-9 rad, or 1e-3 r for r < 1e-6)
+    let f_rim = 1.0 - (2.0 * touch_margin(q.r) / q.r).max(2e-6);
+    for f in [0.25, 0.5, 0.75, 0.9, 0.97, f_rim, 1.0 - 1e-6] {
       pts.push(destination(q.lon, q.lat, bearing, q.r * f));
     }
     if large {
@@ -749,9 +757,51 @@ pub fn run(ctx: &Ctx, c06: bool) -> i32 {
     }
     part
   });
+  // deep start blocks: for EVERY start depth k = 5..=28, cones of radius 0.9 / 0.999 x limit[k]
+  // centred on the characteristic points of polar-cap and other class cells of depth k, covered at
+  // depth k + 1: a cone leaving the 3x3 block of depth-k cells loses the cells outside it
+  let mut total = total;
+  if !c06 {
+    let ks: Vec<u8> = (5u8..=28).collect();
+    let blocks = par_jobs(ks.len(), |j| {
+      let k = ks[j];
+      let mut part = Part::new();
+      let t = thresholds();
+      let mut cells: Vec<u64> = class_cells(k).into_iter().step_by(if quick { 31 } else { 7 }).collect();
+      // the cells next to the polar-cap seams, from half way to the pole up to the pole: the
+      // narrowest cells of a depth are there (KF-1 measurements: at 0.87 of the way at depth 10)
+      let n = nside(k) as u32;
+      for frac in [0.5, 0.75, 0.85, 0.9, 0.95, 0.98] {
+        let j = ((frac * n as f64) as u32).min(n - 1);
+        for a in [n - 1, n.saturating_sub(2)] {
+          cells.push(encode(k, 0, a, j));
+          cells.push(encode(k, 1, j, a));
+          cells.push(encode(k, 8, n - 1 - a, n - 1 - j));
+          cells.push(encode(k, 10, n - 1 - j, n - 1 - a));
+        }
+      }
+      cells.sort();
+      cells.dedup();
+      for &h in cells.iter() {
+        for (px, py) in cell_points_plane(k, h).iter() {
+          let (lon, lat) = ref_unproj(*px, *py);
+          for f in [0.9, 0.999] {
+            let q = ConeQ { variant: 0, depth: k + 1, delta: 0, lon, lat, r: t[k as usize] * f };
+            part.stratum("deep-start-blocks", 1, 1);
+            match check_c05_deep_nb(&q, listed_kf1, 96, &mut part) {
+              Verdict::Ok => {}
+              Verdict::Known(kf, ex) => part.known(kf, ex),
+              Verdict::Bad(v) => part.viol(v),
+            }
+          }
+        }
+      }
+      part
+    });
+    total.merge(blocks);
+  }
   // centres just outside an edge of the NARROWEST cells of the start depth k (exhaustive search,
   // c16::narrowest_cells), radii in and below the band of KF-1, coverage depth k and k + 1
-  let mut total = total;
   {
     let kmax: u8 = if quick { 4 } else { 6 };
     let njobs = kmax as usize + 1;
